@@ -83,6 +83,9 @@ def tasks(tier):
     cfgs.append(dict(base, M=3, max_unknown=None, async_awaitables=True))
     # time passes inside the sleep handler (a handler that flushes logs, a before_sleep that blocks)
     cfgs.append(dict(base, M=3, max_unknown=None, handler_durs=[0, 2], hook_dur=1, deadline=None))
+    # failures carrying a Retry-After hint longer than the delay of a strategy that ignores hints
+    cfgs.append(dict(base, M=3, max_unknown=None, alphabet=["ok", "x:R+ra", "r:R+ra", "x:T+ra"], ra_ticks=9,
+                     strat={"default": "legacy", "per": {}}, strat_menu=[1, 3], deadline=None))
     for cfg in cfgs:
         # family 1: callbacks at policy level, decorator included
         cfg.setdefault("strat", {"default": "ctx", "per": {}})
